@@ -40,6 +40,7 @@ type rlCall struct {
 	kind     string
 	err      error
 	returned bool
+	at       time.Time
 }
 
 type rlEnv struct {
@@ -51,6 +52,14 @@ type rlEnv struct {
 	wg     sync.WaitGroup
 	n      int
 	single bool
+	ctx    context.Context // the context of every call (nil: context.Background())
+}
+
+func (e *rlEnv) callCtx() context.Context {
+	if e.ctx != nil {
+		return e.ctx
+	}
+	return context.Background()
 }
 
 func (e *rlEnv) newID() string { e.n++; return fmt.Sprintf("%03d", e.n) }
@@ -68,10 +77,10 @@ func (e *rlEnv) goGet(prefix string) *rlCall {
 	e.wg.Add(1)
 	go func() {
 		defer e.wg.Done()
-		g, _ := hrpc.NewGet(context.Background(), []byte("t"), []byte(prefix+"#"+cc.id))
+		g, _ := hrpc.NewGet(e.callCtx(), []byte("t"), []byte(prefix+"#"+cc.id))
 		_, err := e.c.Get(g)
 		e.mu.Lock()
-		cc.err, cc.returned = err, true
+		cc.err, cc.returned, cc.at = err, true, time.Now()
 		e.mu.Unlock()
 		e.tr.Emit("ret", "id", cc.id, "err", rlErrClass(err), "class", rlJavaClass(err))
 	}()
@@ -86,10 +95,10 @@ func (e *rlEnv) goPut(prefix string) *rlCall {
 	e.wg.Add(1)
 	go func() {
 		defer e.wg.Done()
-		p, _ := hrpc.NewPut(context.Background(), []byte("t"), []byte(prefix+"#"+cc.id), map[string]map[string][]byte{"f": {"q": []byte("v")}})
+		p, _ := hrpc.NewPut(e.callCtx(), []byte("t"), []byte(prefix+"#"+cc.id), map[string]map[string][]byte{"f": {"q": []byte("v")}})
 		_, err := e.c.Put(p)
 		e.mu.Lock()
-		cc.err, cc.returned = err, true
+		cc.err, cc.returned, cc.at = err, true, time.Now()
 		e.mu.Unlock()
 		e.tr.Emit("ret", "id", cc.id, "err", rlErrClass(err), "class", rlJavaClass(err))
 	}()
@@ -109,10 +118,10 @@ func (e *rlEnv) goBatch(prefixes ...string) {
 		defer e.wg.Done()
 		var b []hrpc.Call
 		for i, p := range prefixes {
-			put, _ := hrpc.NewPut(context.Background(), []byte("t"), []byte(p+"#"+ids[i]), map[string]map[string][]byte{"f": {"q": []byte("v")}})
+			put, _ := hrpc.NewPut(e.callCtx(), []byte("t"), []byte(p+"#"+ids[i]), map[string]map[string][]byte{"f": {"q": []byte("v")}})
 			b = append(b, put)
 		}
-		res, ok := e.c.SendBatch(context.Background(), b)
+		res, ok := e.c.SendBatch(e.callCtx(), b)
 		var err error
 		if !ok {
 			for _, r := range res {
@@ -122,7 +131,7 @@ func (e *rlEnv) goBatch(prefixes ...string) {
 			}
 		}
 		e.mu.Lock()
-		cc.err, cc.returned = err, true
+		cc.err, cc.returned, cc.at = err, true, time.Now()
 		e.mu.Unlock()
 	}()
 }
@@ -504,6 +513,63 @@ func TestVerifRequestLoop(t *testing.T) {
 		})
 	}
 
+	// ---- W6 (Outage.tla: MarkUnavailable is ONE test-and-set): a burst of "not serving" answers for one region reaches
+	// several callers at once; all of them report the outage at the same instant (they are held at the entry of
+	// MarkUnavailable until the last one has arrived). Exactly one of them may win and start the establisher.
+	for _, n := range []int{2, 4, 8} {
+		for rep2 := 0; rep2 < 5; rep2++ {
+			verifsim.Bubble(t, func(t *testing.T) {
+				name := fmt.Sprintf("W6/%d-callers-report-the-same-outage-at-once/%d", n, rep2)
+				e := newRLEnv(1, 2)
+				regs := e.cl.OnlineRegions("t")
+				e.goGet("a")
+				time.Sleep(time.Second)
+				synctest.Wait()
+				var arrived atomic.Int32
+				var gateOn atomic.Bool
+				var ests atomic.Int32
+				release := make(chan struct{})
+				gateOn.Store(true)
+				simSetRegionHook(func(point string, c any, arg any) {
+					if point != "info.markUnavailable" || !gateOn.Load() {
+						return
+					}
+					if r, ok := c.(hrpc.RegionInfo); !ok || !bytes.HasPrefix(r.Name(), []byte("t,,")) {
+						return
+					}
+					arrived.Add(1)
+					select {
+					case <-release: // (closed by the scenario once all of them are parked here: they go on together)
+					case <-time.After(5 * time.Second): // (not everybody came: go on alone)
+					}
+				})
+				simSetHook(func(point string, c any, arg any) {
+					if r, ok := arg.(hrpc.RegionInfo); ok && point == "establish.dialed" && bytes.HasPrefix(r.Name(), []byte("t,,")) {
+						ests.Add(1)
+					}
+				})
+				e.cl.Flap(regs[0], verifsim.ExcNotServing, n) // exactly the n requests below are answered "not serving"
+				for i := 0; i < n; i++ {
+					e.goGet("a")
+				}
+				time.Sleep(100 * time.Millisecond)
+				synctest.Wait()
+				if int(arrived.Load()) == n {
+					gateOn.Store(false)
+					close(release)
+				}
+				time.Sleep(30 * time.Second)
+				synctest.Wait()
+				gateOn.Store(false)
+				simSetRegionHook(nil)
+				if k := ests.Load(); k > 1 {
+					rep.bad("two-establishers", "%s: %d establishers ran for one outage of one region", name, k)
+				}
+				finish(e, name)
+			})
+		}
+	}
+
 	// ---- W4: hbase:meta lags behind a move: the old server answers "not serving" (to requests and to the probe) while the region
 	// is already served elsewhere; meta catches up a little later. The establisher must look the region up again.
 	for _, late := range []time.Duration{50 * time.Millisecond, 3 * time.Second} {
@@ -607,64 +673,7 @@ func TestVerifRequestLoop(t *testing.T) {
 			callers(g / 2)
 			for ev := 0; ev < nev; ev++ {
 				time.Sleep(time.Duration(sr.Intn(30)) * time.Millisecond)
-				regs := e.cl.OnlineRegions("t")
-				r := regs[sr.Intn(len(regs))]
-				s := servers[sr.Intn(3)]
-				switch x := sr.Intn(13); x {
-				case 0:
-					e.cl.Move(r, s)
-					desc = append(desc, "move")
-				case 1:
-					mid := append(append([]byte{}, r.Start...), 'm')
-					if r.Contains(mid) {
-						e.cl.Split(r, mid, servers[sr.Intn(3)], servers[sr.Intn(3)])
-						desc = append(desc, "split")
-					}
-				case 2:
-					if len(regs) >= 2 {
-						i := sr.Intn(len(regs) - 1)
-						e.cl.Merge(regs[i], regs[i+1], s)
-						desc = append(desc, "merge")
-					}
-				case 3:
-					e.cl.Flap(r, []string{verifsim.ExcNotServing, verifsim.ExcRegionMoved}[sr.Intn(2)], 1+sr.Intn(3))
-					desc = append(desc, "notserving")
-				case 4:
-					e.cl.Flap(r, []string{verifsim.ExcRegionOpening, verifsim.ExcTooBusy, verifsim.ExcQueueTooBig, verifsim.ExcThrottling}[sr.Intn(4)], 1+sr.Intn(3))
-					desc = append(desc, "retrylater")
-				case 5:
-					e.cl.StopServer(s)
-					for _, rr := range e.cl.OnlineRegions("t") { // its regions are reassigned
-						if rr.Host == s {
-							e.cl.Move(rr, servers[(sr.Intn(2)+1+indexOf(servers, s))%3])
-						}
-					}
-					desc = append(desc, "abort")
-				case 6:
-					e.cl.StartServer(s)
-					desc = append(desc, "restart")
-				case 7:
-					e.cl.ResetConns(s)
-					desc = append(desc, "reset")
-				case 8:
-					e.cl.MoveMeta([]string{"ms", "rs1", "rs2"}[sr.Intn(3)])
-					e.cl.ResetConns("ms")
-					desc = append(desc, "metamove")
-				case 9:
-					e.cl.Flap(r, verifsim.ExcAborted, 1)
-					desc = append(desc, "serverfatal")
-				case 11:
-					e.cl.MoveSlowly(r, s)
-					desc = append(desc, "moveslowly")
-				case 12:
-					e.cl.MetaCatchUp()
-					desc = append(desc, "metacatchup")
-				case 10:
-					e.cl.Lock()
-					e.cl.Servers[s].DropOnAccept = !e.cl.Servers[s].DropOnAccept
-					e.cl.Unlock()
-					desc = append(desc, "acceptdrop")
-				}
+				desc = append(desc, rlApplyEvent(e, sr, servers))
 				if sr.Intn(2) == 0 {
 					callers(1 + sr.Intn(2))
 				}
@@ -682,6 +691,70 @@ func TestVerifRequestLoop(t *testing.T) {
 			}
 		})
 	}
+}
+
+// rlApplyEvent applies one random event of the fault scripts to the cluster and says which.
+func rlApplyEvent(e *rlEnv, sr *rand.Rand, servers []string) string {
+	what := "none"
+	regs := e.cl.OnlineRegions("t")
+	r := regs[sr.Intn(len(regs))]
+	s := servers[sr.Intn(3)]
+	switch x := sr.Intn(13); x {
+	case 0:
+		e.cl.Move(r, s)
+		what = "move"
+	case 1:
+		mid := append(append([]byte{}, r.Start...), 'm')
+		if r.Contains(mid) {
+			e.cl.Split(r, mid, servers[sr.Intn(3)], servers[sr.Intn(3)])
+			what = "split"
+		}
+	case 2:
+		if len(regs) >= 2 {
+			i := sr.Intn(len(regs) - 1)
+			e.cl.Merge(regs[i], regs[i+1], s)
+			what = "merge"
+		}
+	case 3:
+		e.cl.Flap(r, []string{verifsim.ExcNotServing, verifsim.ExcRegionMoved}[sr.Intn(2)], 1+sr.Intn(3))
+		what = "notserving"
+	case 4:
+		e.cl.Flap(r, []string{verifsim.ExcRegionOpening, verifsim.ExcTooBusy, verifsim.ExcQueueTooBig, verifsim.ExcThrottling}[sr.Intn(4)], 1+sr.Intn(3))
+		what = "retrylater"
+	case 5:
+		e.cl.StopServer(s)
+		for _, rr := range e.cl.OnlineRegions("t") { // its regions are reassigned
+			if rr.Host == s {
+				e.cl.Move(rr, servers[(sr.Intn(2)+1+indexOf(servers, s))%3])
+			}
+		}
+		what = "abort"
+	case 6:
+		e.cl.StartServer(s)
+		what = "restart"
+	case 7:
+		e.cl.ResetConns(s)
+		what = "reset"
+	case 8:
+		e.cl.MoveMeta([]string{"ms", "rs1", "rs2"}[sr.Intn(3)])
+		e.cl.ResetConns("ms")
+		what = "metamove"
+	case 9:
+		e.cl.Flap(r, verifsim.ExcAborted, 1)
+		what = "serverfatal"
+	case 11:
+		e.cl.MoveSlowly(r, s)
+		what = "moveslowly"
+	case 12:
+		e.cl.MetaCatchUp()
+		what = "metacatchup"
+	case 10:
+		e.cl.Lock()
+		e.cl.Servers[s].DropOnAccept = !e.cl.Servers[s].DropOnAccept
+		e.cl.Unlock()
+		what = "acceptdrop"
+	}
+	return what
 }
 
 func indexOf(xs []string, x string) int {
